@@ -10,7 +10,7 @@ from . import c02_gen as G
 
 TRUSTED = [
     "Coq 8.16.1 kernel (coqc, vm_compute); no axioms: every theorem is 'Closed under the global context'",
-    "translators vplib/translate/gen_{pratt,doc_prec,sql_strength,std_sql,expand}.py (regex/brace scanners over expr.rs, ops.rs, operators.md, gen_expr.rs, operators.rs, ast_expand.rs; std.sql.prql through prqlc's own parser; fail closed). The template skeletons they emit are re-checked in Coq (template_wf: the skeleton renders to exactly the template text)",
+    "translators vplib/translate/gen_{pratt,doc_prec,sql_strength,std_sql,expand}.py (regex/brace scanners over expr.rs, ops.rs, operators.md, gen_expr.rs, operators.rs, ast_expand.rs; std.sql.prql through prqlc's own parser; fail closed; Rust sources are read with every #[cfg(prqlc_verif)] item blanked -- c02_util.strip_verif). The template skeletons they emit are re-checked in Coq (template_wf: the skeleton renders to exactly the template text)",
     "hand-modelled algorithms tied to the source by exact text (needs_parentheses, translate_operand, translate_binary_operator, process_null, try_into_between, translate_operator, static_eval_rq_operator, static_eval_case, the `in` desugaring, the Normalizer): any edit breaks the tie",
     "Model/SqlGrammar.v: SQLite's operator precedence/associativity (from sqlite.org/lang_expr.html) and Model/SqlSem.v: SQLite's scalar semantics (integer '/', ROUND half away from zero, ABS, SIGN, COALESCE, POW, three-valued logic) -- validated on every run: each emitted expression is executed on SQLite and compared with the engine model's prediction",
     "Model/Value.v + Model/EvalDoc.v: the documented meaning (exact Z/Q arithmetic; the oracle only compares rows whose intermediate values are exactly representable in binary64)",
@@ -195,7 +195,7 @@ def run():
     ck.assumptions += [
         "value domain {NULL,-7,-2,-1,0,1,2,7,0.5,-2.5}^3 (all 1000 rows for the depth-2 triples, a seeded 250-row sample for random deeper trees); rows with an intermediate value that is not exactly representable in binary64 are not compared",
         "`==`/`!=` with an operand that is not the literal null but is folded to it at compile time is excluded (DESIGN.md C02, 'a semantic corner that is deliberately not demanded')",
-        "`~=` (regex search), strings and dates are outside the value model: text correspondence only",
+        "`~=` (regex search), strings and dates are outside the value model: text correspondence, table obligations and the fncall differential oracle (two executions compared, no documented value) only",
         "SQLite returns the rows of an unordered single-table scan in insertion order",
     ]
-    ck.finish(TRUSTED, "streams: parse = random operator token sequences (model parser vs prql_to_pl); sqltext = model SQL text vs compile, byte-identical, per dialect; e2e = compiled SQL executed on SQLite vs eval_doc, per (expression, dialect): all 861 (parent, position, child) triples over 16 binary + 3 unary operators + case + in-range, plus random trees of depth <= 4; a case is distinct by its PRQL text and dialect; non-trivial = the program compiled and at least one row was comparable")
+    ck.finish(TRUSTED, "streams: parse = random operator token sequences (model parser vs prql_to_pl); sqltext = model SQL text vs compile, byte-identical, per dialect; e2e = compiled SQL executed on SQLite vs eval_doc, per (expression, dialect): all 861 (parent, position, child) triples over 16 binary + 3 unary operators + case + in-range, plus random trees of depth <= 4; fncall = every math.* / text.* template x parameter position x 17 operator children: model text vs compile, and emitted text vs hole-parenthesised reference executed on SQLite; a case is distinct by its PRQL text and dialect; non-trivial = the program compiled and at least one row was comparable")
